@@ -959,6 +959,11 @@ def _process_step_result_tick(
                 has_requirements=bool(len(result.requirements))
                 or result.has_requirements,
                 resolved_event=None,
+                attempts=this_execution.attempts,
+                first_attempt_at=this_execution.first_attempt_at,
+                last_exception=this_execution.last_exception,
+                last_failed_at=this_execution.last_failed_at,
+                recovery_counts=dict(this_execution.recovery_counts),
             )
             if existing is not None:
                 worker_state.collected_waiters[existing] = new_waiter
@@ -1014,6 +1019,19 @@ def _process_step_result_tick(
             commands.extend(subcommands)
 
     return state, commands
+
+
+def _waiter_replay(waiter: StepWorkerWaiter) -> EventAttempt:
+    """The replay of a waiting step continues the attempt that registered the wait:
+    it keeps that attempt's retry count, first-attempt time and recovery budget."""
+    return EventAttempt(
+        event=waiter.event,
+        attempts=waiter.attempts,
+        first_attempt_at=waiter.first_attempt_at,
+        last_exception=waiter.last_exception,
+        last_failed_at=waiter.last_failed_at,
+        recovery_counts=dict(waiter.recovery_counts),
+    )
 
 
 def _add_or_enqueue_event(
@@ -1113,7 +1131,7 @@ def _process_add_event_tick(
                 waiter_resolved_steps.add(step_name)
                 wait_condition.resolved_event = tick.event
                 subcommands = _add_or_enqueue_event(
-                    EventAttempt(event=wait_condition.event),
+                    _waiter_replay(wait_condition),
                     step_name,
                     state.workers[step_name],
                     now_seconds,
@@ -1226,7 +1244,7 @@ def _process_waiter_timeout_tick(
         return state, commands
     waiter.timed_out = True
     subcommands = _add_or_enqueue_event(
-        EventAttempt(event=waiter.event),
+        _waiter_replay(waiter),
         tick.step_name,
         worker_state,
         now_seconds,
